@@ -19,7 +19,7 @@
 (* Three switches select the transcription of indexSince: FALSE = the      *)
 (* design (what a correct indexer does), TRUE = the code as pinned.        *)
 (***************************************************************************)
-EXTENDS Integers, Sequences, FiniteSets, TLC, Json, SequencesExt
+EXTENDS Integers, Sequences, FiniteSets, TLC, Json
 
 CONSTANTS Keys,        \* source keys (sequences of characters)
           Kinds,       \* subset of {"val","del","past","fut","nix"}: plain value, logical delete, expired in the
@@ -35,12 +35,15 @@ CONSTANTS Keys,        \* source keys (sequences of characters)
           ReadonlyTombMd,       \* TRUE: AsDeleted(true) on the read-only metadata of the previous entry is lost
           Export,      \* TRUE: keep the history variable (behaviours for replay)
           EmitDepth,   \* print the history when it reaches this length (0 = never)
-          NReads       \* random queries per read step (export)
+          NReads,      \* random queries per read step (export)
+          CommitWeight, \* relative weight of commits among the random steps (export)
+          ReadWeight   \* relative weight of read steps (export)
 
 VARIABLES log, ts, map,
           run,    \* realisable schedule only: index x is initialised (its indexer goroutine exists)
+          pend,   \* realisable schedule only: initialised indexes that still have to apply the last transaction
           hist    \* observation only
-vars == <<log, ts, map, run, hist>>
+vars == <<log, ts, map, run, pend, hist>>
 
 X == 1..Len(Indexes)
 Min(a, b) == IF a < b THEN a ELSE b
@@ -53,7 +56,10 @@ KLt(a, b) == \E i \in 1..(Min(Len(a), Len(b)) + 1) :
                 /\ \A j \in 1..(i - 1) : a[j] = b[j]
                 /\ IF i > Len(a) THEN i <= Len(b) ELSE (i <= Len(b) /\ a[i] < b[i])
 KLe(a, b) == a = b \/ KLt(a, b)
-SortKeys(S) == SetToSortSeq(S, KLt)
+RECURSIVE SortKeys(_)
+SortKeys(S) == IF S = {} THEN <<>>
+               ELSE LET m == CHOOSE k \in S : \A o \in S : KLe(k, o) IN <<m>> \o SortKeys(S \ {m})
+Rev(s) == [i \in 1..Len(s) |-> s[Len(s) + 1 - i]]
 
 ValChar(v) == 4 + v
 \* TargetEntryMapper of a mapped index: target prefix, then the value, then the source key (hence injective)
@@ -64,6 +70,8 @@ TargetKey(x, k, v) == IF Indexes[x].mapped THEN Indexes[x].tgt \o <<ValChar(v)>>
 EntryOK(e) == (e.kind = "del" => e.v = 0)
               \* entries no index looks at come in one variant only (their content cannot influence any index)
               /\ ((\A x \in X : ~IsPrefix(Indexes[x].src, e.k)) => (e.kind = "val" /\ e.v = SetMax(Vals)))
+              \* a non-indexable entry is skipped by every index whatever it holds
+              /\ (e.kind = "nix" => e.v = SetMax(Vals))
 AllEntries == {e \in [k : Keys, kind : Kinds, v : Vals \cup {0}] : EntryOK(e) /\ (e.kind # "del" => e.v \in Vals)}
 KeySeqs == {SortKeys(S) : S \in {T \in SUBSET Keys : Cardinality(T) \in 1..MaxEntries}}
 EsFor(ks) == {es \in [1..Len(ks) -> AllEntries] : \A i \in 1..Len(ks) : es[i].k = ks[i]}
@@ -105,7 +113,7 @@ PrevTx(x, k, t) ==
       S == {u \in 1..(t - 1) : HasKey(u, k) /\ Indexable(sx, Ent(u, k))}
   IN IF S = {} THEN 0 ELSE SetMax(S)
 
-RefKVs(x, t) ==
+RefKVsG(x, t, quirk) ==
   LET es == log[t].es
       F[i \in 0..Len(es)] ==
         IF i = 0 THEN <<>>
@@ -118,12 +126,17 @@ RefKVs(x, t) ==
                   ELSE LET tpk == TargetKey(x, e.k, Ent(p, e.k).v) IN
                        IF tpk = tk THEN Append(F[i - 1], main)
                        \* the previously mapped key of this source key is tombstoned at time t
-                       ELSE F[i - 1] \o <<main, Ver(tpk, t, p, e.k, TRUE, TRUE)>>
+                       ELSE F[i - 1] \o <<main, Ver(tpk, t, p, e.k,
+                                                   IF quirk /\ Ent(p, e.k).kind # "val" THEN Ent(p, e.k).kind = "del" ELSE TRUE, TRUE)>>
   IN F[Len(es)]
+RefKVs(x, t) == RefKVsG(x, t, FALSE)
 
-RefMap(x, n) ==
-  LET R[t \in 0..n] == IF t = 0 THEN EmptyMap ELSE Apply(R[t - 1], RefKVs(x, t)).m
+\* quirk = TRUE is NOT the reference: it is the reference with the tombstone of an entry that carries metadata
+\* left unmarked; TraceIndex uses it only to name a rejected read
+RefMapG(x, n, quirk) ==
+  LET R[t \in 0..n] == IF t = 0 THEN EmptyMap ELSE Apply(R[t - 1], RefKVsG(x, t, quirk)).m
   IN R[n]
+RefMap(x, n) == RefMapG(x, n, FALSE)
 
 -----------------------------------------------------------------------------
 (* TRANSCRIPTION of indexer.indexSince(txID = from) for a bulk of k transactions *)
@@ -188,7 +201,7 @@ Item(k, w, j) ==
   LET e == Ent(w.ptx, w.pk) IN
   [k |-> k, tx |-> w.tx, hc |-> j, ptx |-> w.ptx, pk |-> w.pk, del |-> w.del, tomb |-> w.tomb,
    exp |-> IF e.kind = "past" THEN "past" ELSE IF e.kind = "fut" THEN "fut" ELSE "no", xmd |-> log[w.ptx].md]
-Last(M, k) == Item(k, M[k][Len(M[k])], Len(M[k]))
+LastItem(M, k) == Item(k, M[k][Len(M[k])], Len(M[k]))
 \* flt is a subset of {"D","E"}: IgnoreDeleted, IgnoreExpired
 Filtered(it, flt) == ("D" \in flt /\ it.del) \/ ("E" \in flt /\ it.exp = "past")
 Live(it) == ~Filtered(it, {"D", "E"})
@@ -197,7 +210,7 @@ NF == Res("nf", <<>>)
 
 \* Get / GetWithFilters
 RGet(M, k, flt) == IF k \notin DOMAIN M THEN NF
-                   ELSE IF Filtered(Last(M, k), flt) THEN NF ELSE Res("ok", <<Last(M, k)>>)
+                   ELSE IF Filtered(LastItem(M, k), flt) THEN NF ELSE Res("ok", <<LastItem(M, k)>>)
 \* GetBetween(key, initialTx, finalTx): the latest version with initialTx <= tx <= finalTx, unfiltered
 LatestUpTo(M, k, f) == LET S == {j \in 1..Len(M[k]) : M[k][j].tx <= f} IN IF S = {} THEN 0 ELSE SetMax(S)
 RBetween(M, k, i, f) ==
@@ -209,9 +222,9 @@ RBetween(M, k, i, f) ==
 PrefixCands(M, p, neq, strict) ==
   {k \in DOMAIN M : IsPrefix(p, k) /\ (neq = <<>> \/ (IF strict THEN KLt(neq, k) ELSE k # neq))}
 RPrefixWith(M, p, neq, strict, skipDead) ==
-  LET c == IF skipDead THEN {k \in PrefixCands(M, p, neq, strict) : Live(Last(M, k))} ELSE PrefixCands(M, p, neq, strict)
+  LET c == IF skipDead THEN {k \in PrefixCands(M, p, neq, strict) : Live(LastItem(M, k))} ELSE PrefixCands(M, p, neq, strict)
   IN IF c = {} THEN NF
-     ELSE LET k0 == SortKeys(c)[1] IN IF Live(Last(M, k0)) THEN Res("ok", <<Last(M, k0)>>) ELSE NF
+     ELSE LET k0 == SortKeys(c)[1] IN IF Live(LastItem(M, k0)) THEN Res("ok", <<LastItem(M, k0)>>) ELSE NF
 RPrefix(M, p, neq) == RPrefixWith(M, p, neq, TRUE, FALSE)
 PrefixDefined(M, p, neq) ==
   \A s \in BOOLEAN, d \in BOOLEAN : RPrefixWith(M, p, neq, s, d) = RPrefix(M, p, neq)
@@ -230,11 +243,11 @@ InRange(k, q) ==
                                 ELSE (IF q.iseek THEN KLe(q.seek, k) ELSE KLt(q.seek, k))
   /\ q.end # <<>> => IF q.desc THEN (IF q.iend THEN KLe(q.end, k) ELSE KLt(q.end, k))
                                ELSE (IF q.iend THEN KLe(k, q.end) ELSE KLt(k, q.end))
-Ordered(S, desc) == IF desc THEN Reverse(SortKeys(S)) ELSE SortKeys(S)
+Ordered(S, desc) == IF desc THEN Rev(SortKeys(S)) ELSE SortKeys(S)
 Drop(s, n) == IF n >= Len(s) THEN <<>> ELSE SubSeq(s, n + 1, Len(s))
 RScan(M, q) ==
   LET ks == Ordered({k \in DOMAIN M : InRange(k, q)}, q.desc)
-      items == [i \in 1..Len(ks) |-> Last(M, ks[i])]
+      items == [i \in 1..Len(ks) |-> LastItem(M, ks[i])]
   IN Res("ok", Drop(SelectSeq(items, LAMBDA it : ~Filtered(it, q.flt)), q.off))
 \* ReadBetween(initialTx, finalTx) on a key reader
 RScanBetween(M, q) ==
@@ -260,9 +273,151 @@ Eval(M, q) ==
     [] q.op = "dump"    -> RDump(M)
 Defined(M, q) == q.op = "prefix" => PrefixDefined(M, q.p, q.neq)
 
-\* query universe of index x at index time n
-TKeys(x) == IF Indexes[x].mapped THEN {TargetKey(x, k, v) : k \in {kk \in Keys : IsPrefix(Indexes[x].src, kk)}, v \in Vals \cup {0}}
+\* query universe of index x
+TKeys(x) == IF Indexes[x].mapped
+            THEN {TargetKey(x, k, v) : k \in {kk \in Keys : IsPrefix(Indexes[x].src, kk)}, v \in Vals \cup {0}}
             ELSE {k \in Keys : IsPrefix(Indexes[x].src, k)}
 QKeys(x) == TKeys(x) \cup {Indexes[x].tgt \o <<9>>}           \* plus a key that never exists
-QPrefixes(x) == {SubSeq(k, 1, l) : k \in TKeys(x), l \in Len(Indexes[x].tgt)..3} \cap {s \in Seq(0..9) : TRUE}
+QPrefixes(x) == {p \in UNION {{SubSeq(k, 1, l) : l \in 0..Len(k)} : k \in TKeys(x)} : IsPrefix(Indexes[x].tgt, p)}
+Norm(q) == IF q.i > q.f THEN [q EXCEPT !.i = q.f, !.f = q.i] ELSE q
+Ops == {"get", "between", "prefix", "history", "scan", "scanb"}
+\* random queries: most scans use the index prefix, open bounds and no offset so that they return something
+Coin(n) == RandomElement(1..n) = 1
+RandQ(x, n) ==
+  Norm([op |-> RandomElement(Ops), via |-> RandomElement({"store", "snap"}), k |-> RandomElement(QKeys(x)),
+        i |-> RandomElement(1..(n + 1)), f |-> RandomElement(1..(n + 1)),
+        p |-> IF Coin(3) THEN RandomElement(QPrefixes(x)) ELSE Indexes[x].tgt,
+        neq |-> IF Coin(2) THEN RandomElement(TKeys(x)) ELSE <<>>,
+        off |-> IF Coin(3) THEN RandomElement(1..2) ELSE 0, desc |-> RandomElement(BOOLEAN),
+        lim |-> RandomElement(1..3),
+        seek |-> IF Coin(2) THEN RandomElement(QKeys(x)) ELSE <<>>, end |-> IF Coin(3) THEN RandomElement(QKeys(x)) ELSE <<>>,
+        iseek |-> RandomElement(BOOLEAN), iend |-> RandomElement(BOOLEAN), flt |-> RandomElement(SUBSET {"D", "E"})])
+\* a fixed family for the exhaustive runs (every operation, every key, every bound)
+QueriesMC(x, n) ==
+  {[Q0 EXCEPT !.op = "get", !.k = k, !.flt = fl] : k \in QKeys(x), fl \in {{}, {"D", "E"}}}
+  \cup {[Q0 EXCEPT !.op = "between", !.k = k, !.i = i, !.f = f] : k \in TKeys(x), i \in 1..n, f \in 1..n}
+  \cup {[Q0 EXCEPT !.op = "prefix", !.p = p, !.neq = nq] : p \in QPrefixes(x), nq \in {<<>>}}
+  \cup {[Q0 EXCEPT !.op = "history", !.k = k, !.off = o, !.desc = d, !.lim = 2] : k \in TKeys(x), o \in 0..1, d \in BOOLEAN}
+  \cup {[Q0 EXCEPT !.op = "scan", !.p = Indexes[x].tgt, !.desc = d, !.flt = fl, !.seek = s, !.iseek = TRUE]
+          : d \in BOOLEAN, fl \in {{}, {"D", "E"}}, s \in {<<>>} \cup TKeys(x)}
+
+-----------------------------------------------------------------------------
+(* STATE MACHINE *)
+NoTx == [es |-> <<>>, md |-> FALSE]
+Step(op, x, tx, bulks, n, reads) == [op |-> op, x |-> x, tx |-> tx, bulks |-> bulks, n |-> n, reads |-> reads]
+H(e) == hist' = IF Export THEN Append(hist, e) ELSE hist
+
+Init == /\ log = <<>> /\ ts = [x \in X |-> 0] /\ map = [x \in X |-> EmptyMap]
+        /\ run = [x \in X |-> FALSE] /\ pend = <<>> /\ hist = <<>>
+
+(* general actions: the indexer may apply any bulk of 1..MaxBulk committed transactions at any time *)
+CommitTx(tx) ==
+  /\ Len(log) < MaxTx /\ pend = <<>>
+  /\ log' = Append(log, tx) /\ UNCHANGED <<ts, map, run, pend>>
+  /\ H(Step("commit", 0, tx, <<>>, Len(log) + 1, <<>>))
+IndexBulk(x, k) ==
+  /\ k \in 1..Min(MaxBulk, Len(log) - ts[x]) /\ SourceReady(x, ts[x] + 1, k, ts)
+  /\ LET b == BulkApply(x, k, map, ts) IN
+       /\ b.ok /\ map' = b.map /\ ts' = b.ts
+       /\ H(Step("bulk", x, NoTx, <<k>>, b.ts[x], <<>>))
+  /\ UNCHANGED <<log, run, pend>>
+\* flush, compaction and restart of an index do not change what it holds
+Maint(op, x) == /\ Export /\ pend = <<>> /\ UNCHANGED <<log, ts, map, run, pend>> /\ H(Step(op, x, NoTx, <<>>, 0, <<>>))
+\* WaitForIndexingUpto(n) returns once ts[x] >= n: reads after it see index time ts[x] >= n (see IndexAgrees)
+WaitIndexed(x, n) == ts[x] >= n
+
+NextMC == \/ \E tx \in AllTxs : CommitTx(tx)
+          \/ \E x \in X, k \in 1..MaxBulk : IndexBulk(x, k)
+          \/ \E x \in X, op \in {"flush", "compact", "reopen"} : Maint(op, x)
+SpecMC == Init /\ [][NextMC]_vars
+
+(* realisable schedule: what a sequential driver can force on the real store without hooks.  An index that is
+   not initialised does not index; InitIndexing makes it catch up in greedy bulks; an initialised index applies
+   every new transaction on its own.  Every step is a composition of the general actions above. *)
+RECURSIVE CatchUp(_, _, _, _)
+CatchUp(x, mp, tsv, bulks) ==
+  IF tsv[x] >= Len(log) THEN [ok |-> TRUE, map |-> mp, ts |-> tsv, bulks |-> bulks]
+  ELSE LET k == Min(MaxBulk, Len(log) - tsv[x])
+           b == BulkApply(x, k, mp, tsv)
+       IN IF ~b.ok THEN [ok |-> FALSE, map |-> mp, ts |-> tsv, bulks |-> bulks]
+          ELSE CatchUp(x, b.map, b.ts, Append(bulks, k))
+Running == SelectSeq([i \in 1..Len(Indexes) |-> i], LAMBDA x : run[x])
+CommitRz(tx) ==
+  /\ Len(log) < MaxTx /\ pend = <<>>
+  /\ log' = Append(log, tx) /\ pend' = Running /\ UNCHANGED <<ts, map, run>>
+  /\ H(Step("commit", 0, tx, <<>>, Len(log) + 1, <<>>))
+LiveRz ==
+  /\ pend # <<>>
+  /\ LET x == Head(pend) b == BulkApply(x, 1, map, ts) IN
+       /\ b.ok /\ map' = b.map /\ ts' = b.ts /\ H(Step("live", x, NoTx, <<1>>, b.ts[x], <<>>))
+  /\ pend' = Tail(pend) /\ UNCHANGED <<log, run>>
+StartRz(x) ==
+  /\ ~run[x] /\ pend = <<>> /\ (Indexes[x].inj => run[Indexes[x].srcIdx])
+  /\ LET c == CatchUp(x, map, ts, <<>>) IN
+       /\ c.ok /\ map' = c.map /\ ts' = c.ts /\ H(Step("start", x, NoTx, c.bulks, c.ts[x], <<>>))
+  /\ run' = [run EXCEPT ![x] = TRUE] /\ UNCHANGED <<log, pend>>
+StopRz(x) ==
+  /\ run[x] /\ pend = <<>> /\ \A y \in X : (Indexes[y].inj /\ Indexes[y].srcIdx = x) => ~run[y]
+  /\ run' = [run EXCEPT ![x] = FALSE] /\ UNCHANGED <<log, ts, map, pend>>
+  /\ H(Step("stop", x, NoTx, <<>>, 0, <<>>))
+MaintRz(op, x) == (IF x = 0 THEN TRUE ELSE run[x]) /\ Maint(op, x)
+\* reads of an initialised index at its index time (= Len(log) here): expected results from the REFERENCE
+ReadRz(x) ==
+  /\ run[x] /\ pend = <<>> /\ UNCHANGED <<log, ts, map, run, pend>>
+  /\ \E qs \in {[i \in 1..NReads |-> RandQ(x, ts[x])]} :
+       LET M == RefMap(x, ts[x])
+           all == <<[Q0 EXCEPT !.op = "dump"]>> \o SelectSeq(qs, LAMBDA q : Defined(M, q))
+       IN H(Step("read", x, NoTx, <<>>, ts[x], [i \in 1..Len(all) |-> [q |-> all[i], r |-> Eval(M, all[i])]]))
+NextRz(T) == \/ \E tx \in T : CommitRz(tx)
+             \/ LiveRz
+             \/ \E x \in X : StartRz(x) \/ StopRz(x)
+\* exhaustive search over realisable schedules (used with the transcription switches on: its counterexamples
+\* can be forced on the real store)
+NextRzAll == NextRz(AllTxs)
+SpecRz == Init /\ [][NextRzAll]_vars
+\* random realisable behaviours with maintenance and reads (tlc -simulate)
+NextSim == \/ \E c \in 1..CommitWeight : \E tx \in {RandomElement(AllTxs)} : CommitRz(tx)
+           \/ LiveRz
+           \/ \E x \in X : StartRz(x) \/ StopRz(x) \/ MaintRz("flush", x) \/ MaintRz("compact", x)
+           \/ \E x \in X, c \in 1..ReadWeight : ReadRz(x)
+           \/ (\E x \in X : run[x]) /\ MaintRz("reopen", 0)
+SpecSim == Init /\ [][NextSim]_vars
+
+-----------------------------------------------------------------------------
+(* PROPERTY *)
+TypeOK == /\ Len(log) <= MaxTx /\ \A x \in X : ts[x] <= Len(log)
+\* for every index and every n up to its index time the index holds exactly what the reference computes from
+\* log[1..n]; hence every defined read (a function of that content) equals the reference value
+\* (the reference is monotone: what it holds at n is what it holds later restricted to n - RefMonotone, a statement
+\* about the log alone, evaluated once per log)
+Quiet == \A x \in X : ts[x] = 0
+MapAgrees == \A x \in X : map[x] = RefMap(x, ts[x])
+RefMonotone == Quiet => \A x \in X : \A n \in 0..Len(log) : Restrict(RefMap(x, Len(log)), n) = RefMap(x, n)
+\* for the runs with a transcription switch on: the counterexample is printed as a replayable behaviour together
+\* with what the REFERENCE says every initialised index holds at that point
+MapAgreesX ==
+  IF MapAgrees THEN TRUE
+  ELSE /\ PrintT(<<"JSON:", ToJson([steps |-> hist, indexes |-> Indexes, maxBulk |-> MaxBulk, run |-> run, ts |-> ts,
+                                    dumps |-> [x \in X |-> RDump(RefMap(x, ts[x]))]])>>)
+       /\ FALSE
+ReadsAgree == \A x \in X : \A q \in QueriesMC(x, ts[x]) :
+                Eval(map[x], q) = Eval(RefMap(x, ts[x]), q)
+IndexAgrees == MapAgrees /\ ReadsAgree
+\* the reference itself is what the property means for an injective mapped index: a source key is findable under
+\* exactly the target key of its current version, every other target key it ever had is a tombstone
+LatestTx(x, k) == PrevTx(x, k, Len(log) + 1)
+RefInjectiveSound ==
+  Quiet => \A x \in X : Indexes[x].inj =>
+    LET M == RefMap(x, Len(log)) IN
+    /\ \A sk \in Keys : LatestTx(x, sk) > 0 =>
+         LET tk == TargetKey(x, sk, Ent(LatestTx(x, sk), sk).v) IN
+         tk \in DOMAIN M /\ LastItem(M, tk).ptx = LatestTx(x, sk) /\ ~LastItem(M, tk).tomb
+    /\ \A tk \in DOMAIN M : ~LastItem(M, tk).del => LatestTx(x, LastItem(M, tk).pk) = LastItem(M, tk).ptx
+\* revisions are consecutive and versions are in commit order
+RefHistoryOrdered ==
+  Quiet => \A x \in X : LET M == RefMap(x, Len(log)) IN
+    \A k \in DOMAIN M : \A j \in 1..(Len(M[k]) - 1) : M[k][j].tx < M[k][j + 1].tx
+
+Emit == (EmitDepth > 0 /\ Len(hist) = EmitDepth) => PrintT(<<"JSON:", ToJson([steps |-> hist, indexes |-> Indexes, maxBulk |-> MaxBulk])>>)
+View == <<log, ts, map, run, pend>>
 =============================================================================
